@@ -401,8 +401,39 @@ func (c *FnCtx) readRoot(st *State, a *Addr) Val {
 	v := c.readRoot0(st, a)
 	if a.Kind != akLocal && v.Term != "" {
 		c.heapTyped(a.RootT, v.Term)
+		c.closedHeap(st, a.RootT, v.Term, 0)
 	}
 	return v
+}
+
+// closedHeap: every reference stored in the heap is nil or allocated (reachable objects are
+// allocated) -- an invariant of every execution state, assumed for values read from the heap.
+func (c *FnCtx) closedHeap(st *State, t types.Type, term string, depth int) {
+	if strings.Contains(term, "q.") || depth > 2 {
+		return
+	}
+	al := c.heapGet(st, "alloc", allocSort)
+	key := al + "|" + term
+	if depth == 0 {
+		if c.typedSeen[key] {
+			return
+		}
+		c.typedSeen[key] = true
+	}
+	switch u := t.Underlying().(type) {
+	case *types.Pointer:
+		if _, ok := u.Elem().Underlying().(*types.Struct); ok {
+			c.smt.assume(or(eq(term, "0"), sel(al, term)), "")
+		}
+	case *types.Map, *types.Chan:
+		c.smt.assume(or(eq(term, "0"), sel(al, term)), "")
+	case *types.Slice:
+		c.smt.assume(or(eq(app("sl_base", term), "0"), sel(al, app("sl_base", term))), "")
+	case *types.Struct:
+		for i := 0; i < u.NumFields(); i++ {
+			c.closedHeap(st, u.Field(i).Type(), c.structGet(t, term, i), depth+1)
+		}
+	}
 }
 
 // heapTyped records that a value read from the heap is well typed (integer range, slice shape):
